@@ -59,9 +59,28 @@ func (p *Pair) ExportImport(s *Side, env *Env, ep *EP, mutate func(raw []byte) [
 	if !ok {
 		return nil, fmt.Errorf("no connection state")
 	}
+	old, oldEP := s.Conn, s.EP
+	if p.ExportOrder == "close-first" {
+		// the snapshot is taken, the old connection goes away, and only then is the snapshot serialised
+		oldEP.Detach()
+		_ = old.Close()
+		s.readerWG.Wait()
+		Settle()
+	}
 	raw, err = st.MarshalBinary()
 	if err != nil {
 		return nil, err
+	}
+	if p.ExportOrder == "interleave" {
+		// another state is serialised while the first result is still held (a process checkpointing
+		// several connections before shipping the blobs)
+		other := p.C
+		if s == p.C {
+			other = p.S
+		}
+		if ost, ok := other.Conn.ConnectionState(); ok {
+			_, _ = ost.MarshalBinary()
+		}
 	}
 	use := raw
 	if mutate != nil {
@@ -71,8 +90,9 @@ func (p *Pair) ExportImport(s *Side, env *Env, ep *EP, mutate func(raw []byte) [
 	if err := st2.UnmarshalBinary(use); err != nil {
 		return raw, fmt.Errorf("unmarshal: %w", err)
 	}
-	old, oldEP := s.Conn, s.EP
-	oldEP.Detach()
+	if p.ExportOrder != "close-first" {
+		oldEP.Detach()
+	}
 	newEP := p.Net.Rebind(s.Name)
 	peer := "S"
 	if s.Name == "S" {
